@@ -277,7 +277,8 @@ Definition string_bytes (pj : pjson) (i : iter) : outcome bytes :=
   else if i_len i <=? i_off i then Err
   else do len <- rd pj (i_len i) (i_off i); string_byte_at pj (i_cur i) len.
 
-(* Object.NextElementBytes: None = TypeNone (no more elements) *)
+(* Object.NextElementBytes: None = TypeNone (no more elements); an element whose
+   open tag points backwards is an error (fix F19) *)
 Fixpoint next_element (fuel : nat) (pj : pjson) (o : cont) : outcome (cont * option (bytes * iter * N)) :=
   match fuel with
   | O => OutOfFuel
@@ -298,7 +299,8 @@ Fixpoint next_element (fuel : nat) (pj : pjson) (o : cont) : outcome (cont * opt
           let t2 := word_tag v2 in
           let esize := calc_next false off3 cur t2 in
           let add := calc_next true off3 cur t2 in
-          if c_len o <? off3 + esize then Err
+          if esize <? 0 then Err
+          else if c_len o <? off3 + esize then Err
           else if off3 + esize <? 0 then Crash
           else
             Ok ({| c_len := c_len o; c_off := off3 + esize |},
